@@ -45,10 +45,72 @@ def monitor_regen(run, where, inv, meta, hist, ii, rep):
             run.report_failure(None, "the regenerated manifest does not load but the invocation did not fail", where)
 
 
+def tape_of(inv):
+    """what one invocation of the real run::build showed, as the model's tape; and what it did"""
+    phs = inv.phases()
+    regen = [p for p in phs if p["kind"] == "regen"]
+    main_ = [p for p in phs if p["kind"] == "main"]
+    g0 = inv.graphs[0] if inv.graphs else None
+    load0 = bool(g0 is not None and not g0.error)
+    ok_fin = lambda ph: sum(1 for e in (ph["run"] or []) if e.startswith("finish_") and e.endswith("_0"))
+    res = inv.result
+    kind = "ok" if res.startswith("ok:") else ("fail" if res == "fail" else ("err" if res.startswith("err") else None))
+    if kind is None:
+        return None
+    reload_seen = "reload" in inv.trace
+    t1 = ok_fin(regen[0]) if regen else 0
+    final = {"ok": "1", "fail": "0", "err": "e"}[kind]
+    if main_:
+        r1, l1, m, t2 = "1", "1", final, ok_fin(main_[0])
+    elif reload_seen:
+        r1, l1, m, t2 = "1", "0", "1", 0           # the reload itself failed
+    elif regen:
+        r1, l1, m, t2 = final, "1", "1", 0         # the regeneration phase was the last thing that happened
+        if kind == "ok":
+            return None
+    else:
+        return None                                 # nothing ran (load error): covered by load0 below
+    tape = "%d %s %d %s %s %d" % (1 if load0 else 0, r1, t1, l1, m, t2)
+    if main_:
+        did = "main:%d:%d" % (1 if main_[0]["reloaded"] else 0, 0 if main_[0]["reloaded"] else 1)
+    else:
+        did = "nomain"
+    return tape, (res if kind == "ok" else kind) + " " + did
+
+
+def build_tape_check(run, drv, items, stats):
+    """Model/Build.v (`build`, the subject of the C17 theorems) replayed on every observed invocation"""
+    lines, metas = [], []
+    for inv, where in items:
+        t = tape_of(inv)
+        if t is None or not inv.graphs or inv.graphs[0].error:
+            continue
+        lines.append(t[0])
+        metas.append((t, where))
+    out = run_lines([drv, "build"], lines) if lines else []
+    stats["orchestration_tapes"] = len(lines)
+    stats["orchestration_with_reload"] = sum(1 for l in lines if l.split()[2] != "0")
+    for (t, where), m in zip(metas, out):
+        if m.strip() != t[1]:
+            run.report_failure(None, "run::build did %r where the orchestration model, on what the two phases returned (%s), does %r" % (t[1], t[0], m.strip()),
+                               dict(where, tape=t[0], model=m.strip(), implementation=t[1]))
+
+
 def gen(rng, **kw):
     steps, invs, info = gen_history(rng, with_regen=("include" if rng.random() < 0.35 else True), with_pools=True, nmax=8, **kw)
     return steps, invs, info
 
 
 def main(tier, seed, replay=None):
-    return world_check(PROP, THEOREMS, tier, seed, [monitor_regen, monitor_null_build], scen_gen=gen, clean_oracle=True, replay=replay)
+    seen = []
+
+    def collect(run, where, inv, meta, hist, ii, rep):
+        seen.append((inv, where))
+
+    def finish_hook(run):
+        stats = {}
+        build_tape_check(run, build_driver(), seen, stats)
+        run.coverage["orchestration_model"] = stats
+
+    return world_check(PROP, THEOREMS, tier, seed, [monitor_regen, monitor_null_build, collect], scen_gen=gen, clean_oracle=True, replay=replay,
+                       before_finish=finish_hook)
